@@ -519,6 +519,7 @@ class TextState:
         out = []
         hp_seen, up_seen = {}, {}
         late_redef = set()
+        late_def = set()         # numbers whose SELECTED_OUTPUT / USER_PUNCH definition changes in a later simulation of the call
         for k, sim in enumerate(sims):
             blocks, tidy_kw = [], False
             for kw, n, body in sim:
@@ -532,6 +533,8 @@ class TextState:
                     touch = any(o not in NO_TOUCH_OPTS for o in opts)
                     existed = n in self.defs
                     stored = touch or not existed
+                    if k >= 1 and (stored or "user_punch" in opts):
+                        late_def.add(n)
                     if stored:
                         if existed and k >= 1:
                             late_redef.add(n)
@@ -564,6 +567,8 @@ class TextState:
                             if "NO_NEWLINE$" in args.upper() or "EOL_NOTAB$" in args.upper():
                                 special = True
                     self.up[n] = dict(nvals=nvals, headings=heads, special=special)
+                    if k >= 1:
+                        late_def.add(n)
                     up_seen.setdefault(n, 0)
                     up_seen[n] += 1
                 elif kw == "PRINT":
@@ -577,7 +582,7 @@ class TextState:
             first = (k == 0)
             tidy = tidy_kw or (first and bool(self.defs))
             out.append(dict(first=first, pr_punch=self.pr_punch, tidy=tidy, blocks=blocks))
-        ambiguous = {n for n, v in hp_seen.items() if len(v) > 1} | {n for n, c in up_seen.items() if c > 1}
+        ambiguous = {n for n, v in hp_seen.items() if len(v) > 1} | {n for n, c in up_seen.items() if c > 1} | late_def
         return dict(sims=out, late_redef=late_redef, ambiguous=ambiguous, inverse=any(b[0] == "INVERSE_MODELING" for s in sims for b in s))
 
 
@@ -880,7 +885,11 @@ def run_history(ctx, exe, inputs, cfgs, cells_cap=None, names=None, db=DB):
         r = {"diffs": diffs, "oracle": bad, "ret": ret, "events": len(events), "views": views, "info": info,
              "rows": sum(int(dict(x.split("=") for x in v)["rows"]) for v in views.get("sel", {}).values()),
              "redefined": sorted(info["late_redef"]), "call": k, "rel": [],
-             "print_off_whole_call": guarded and bool(info["sims"]) and not any(s["pr_punch"] for s in info["sims"])}
+             "sk_impl": skeleton_of_events(events)}
+        # PRINT -selected_output false in effect for the whole call: the engine's own pr.punch after the call is FALSE and
+        # the text of this call never switches it on
+        eng_pr = dict(x.split("=") for x in views.get("dumpstate", [])).get("prpunch", "1")
+        r["print_off_whole_call"] = (guarded and eng_pr == "0" and not _re.search(r"-selected_out\w*\s+t", inp, _re.I))
         # relation: defined numbers read from the texts = numbers the object reports (error-free calls)
         judged = (ret == 0 and not info["inverse"])
         if judged and all(x["ret"] == 0 for x in res):
@@ -971,7 +980,7 @@ def handle_history_result(ctx, inputs, cfgs, k, r, hoisted):
         elif key in ("sel-string-rows", "sel-file-ne-string") and not hoisted and n_user in r.get("dup_heading", []):
             # narrow rule: the schedule model of the loop as written predicts two heading lines for this number in this call
             ctx.finding("heading-duplicated-on-reopen", text, dict(rep, oracle=r["oracle"][:5], schedule=r.get("sk_impl")))
-        elif (key in ("sel-file-ne-string", "sel-file-rows") and r.get("print_off_whole_call") and "sk_impl" in r
+        elif (key in ("sel-file-ne-string", "sel-file-rows") and r.get("print_off_whole_call")
               and ("o%d" % n_user) not in r["sk_impl"]):
             # narrow rule: PRINT -selected_output false in effect during every simulation of the call (read from the input
             # texts), no punch_open for this number recorded in the call: the file keeps what an earlier call left there
